@@ -27,7 +27,7 @@ ASSUMPTIONS = [
     'a failed extend/update may have applied a prefix of its items (narrow relaxation); any other failed operation must leave the pre-state',
 ]
 TIERS = {
-    'quick': {'runs': 32, 'wall_cap': 80, 'chunk': 1, 'examples': 300, 'steps': 25, 'min_budget': 40, 'min_each': 20},
+    'quick': {'runs': 32, 'wall_cap': 80, 'chunk': 1, 'examples': 200, 'steps': 25, 'min_budget': 40, 'min_each': 20},
     'thorough': {'runs': 480, 'wall_cap': 1200, 'chunk': 1, 'examples': 500, 'steps': 40, 'min_budget': 120, 'min_each': 40},
 }
 
@@ -635,6 +635,8 @@ def op_pop(w, real, mod, op, fk):
 
 
 def op_clear(w, real, mod, op, fk):
+    if op.get('how') == 'ayns':
+        return real.ayns.clear, mod.clear
     return real.clear, mod.clear
 
 
@@ -933,9 +935,9 @@ def _build_machine(max_steps):
                 new = (ks // 5) % (len(node) + 2)
             self._do({'op': 'rename_child', 'at': at, 'key': old, 'new': new})
 
-        @rule(s=sel)
-        def c_clear(self, s):
-            self._do({'op': 'clear', 'at': self._pick(s)})
+        @rule(s=sel, how=st.sampled_from(['method', 'ayns']))
+        def c_clear(self, s, how):
+            self._do({'op': 'clear', 'at': self._pick(s), 'how': how})
 
         @rule(s=sel, v=values())
         def l_append(self, s, v):
